@@ -768,7 +768,7 @@ def reduce_alg(q):
                     t = t * s
                 tot = tot + t
             den = Q(None, {0: 1}, q.dc, q.d, 1) if (q.d or q.dc != 1) else ONE
-            q = tot if den is ONE else vq_div_nocheck(tot, den)
+            q = tot if den is ONE else _mul(tot, den)      # den is the Q 1/(dc * prod atoms): multiply, keeps the value
             changed = True
             break
     return q
